@@ -4,10 +4,10 @@ package c02
 import (
 	"errors"
 	"fmt"
-	"runtime"
 	"net/http"
 	"net/http/httptest"
 	"net/url"
+	"runtime"
 	"sort"
 	"strings"
 	"sync"
@@ -15,6 +15,7 @@ import (
 	"testing"
 	"time"
 
+	"github.com/vulcand/oxy/v2/internal/holsterv4/clock"
 	"github.com/vulcand/oxy/v2/roundrobin"
 	"github.com/vulcand/oxy/v2/verifharness/vstat"
 	"pgregory.net/rapid"
@@ -53,7 +54,21 @@ type entry struct {
 	w       int
 	updates int
 	spell   string
+	meter   *adjMeter
 }
+
+// adjMeter is an always-ready meter whose rating the test scripts (shared by the pool under
+// test and its twin; only read under the rebalancers' own locks, written between calls).
+type adjMeter struct{ bad bool }
+
+func (m *adjMeter) Rating() float64 {
+	if m.bad {
+		return 0.9
+	}
+	return 0
+}
+func (m *adjMeter) Record(int, time.Duration) {}
+func (m *adjMeter) IsReady() bool             { return true }
 
 type model struct{ es []entry }
 
@@ -136,65 +151,84 @@ func TestC02_PoolMembership(t *testing.T) {
 	rapid.Check(t, func(t *rapid.T) {
 		useRebalancer := rapid.Bool().Draw(t, "rebalancer")
 		sticky := rapid.Bool().Draw(t, "sticky")
-		var seenKey string
+		var seenKey, seenKey2 string
 		meterFails := false
-		var invoked int
+		var invoked, invoked2 int
 		var mutate int
-		handler := http.HandlerFunc(func(w http.ResponseWriter, r *http.Request) {
-			invoked++
-			seenKey = key(r.URL)
-			switch mutate {
-			case 1:
-				r.URL.Path = "/mutated"
-				r.URL.RawPath = ""
-			case 2:
-				r.URL.Host = "evil:1"
-			case 3:
-				r.URL.Scheme = "ftp"
-				r.URL.RawQuery = "z=9"
-			case 4:
-				if r.URL.User != nil {
-					*r.URL.User = *url.UserPassword("x", "y")
+		// adjusting: (rebalancer only) meters are ready and rate some servers as failing, the frozen
+		// clock moves before every request, so effective weights really change between the calls
+		adjusting := useRebalancer && rapid.Bool().Draw(t, "adjusting")
+		var pendingMeter *adjMeter
+		if adjusting {
+			clock.Freeze(time.Date(2026, 5, 1, 0, 0, 0, 0, time.UTC))
+			defer clock.Unfreeze()
+		}
+		mkHandler := func(invoked *int, seenKey *string) http.Handler {
+			return http.HandlerFunc(func(w http.ResponseWriter, r *http.Request) {
+				*invoked++
+				*seenKey = key(r.URL)
+				switch mutate {
+				case 1:
+					r.URL.Path = "/mutated"
+					r.URL.RawPath = ""
+				case 2:
+					r.URL.Host = "evil:1"
+				case 3:
+					r.URL.Scheme = "ftp"
+					r.URL.RawQuery = "z=9"
+				case 4:
+					if r.URL.User != nil {
+						*r.URL.User = *url.UserPassword("x", "y")
+					}
+					r.URL.User = url.User("other")
+					r.Header.Set("X-Mut", "1")
+				case 5:
+					*r.URL = url.URL{Scheme: "http", Host: "zzz", Path: "/q"}
 				}
-				r.URL.User = url.User("other")
-				r.Header.Set("X-Mut", "1")
-			case 5:
-				*r.URL = url.URL{Scheme: "http", Host: "zzz", Path: "/q"}
-			}
-			w.WriteHeader(200)
-		})
+				w.WriteHeader(200)
+			})
+		}
 		var rrOpts []roundrobin.LBOption
 		var rbOpts []roundrobin.RebalancerOption
 		if sticky {
 			rrOpts = append(rrOpts, roundrobin.EnableStickySession(roundrobin.NewStickySession("sid")))
 			rbOpts = append(rbOpts, roundrobin.RebalancerStickySession(roundrobin.NewStickySession("sid")))
 		}
-		var p pool
-		var nextServer func() (*url.URL, error)
-		var serverWeight func(*url.URL) (int, bool)
-		if useRebalancer {
-			rr, err := roundrobin.New(handler)
-			if err != nil {
-				t.Fatal(err)
-			}
-			rbOpts = append(rbOpts, roundrobin.RebalancerMeter(func() (roundrobin.Meter, error) {
-				if meterFails {
-					return nil, errors.New("meter constructor failed")
+		build := func(handler http.Handler) (pool, func() (*url.URL, error), func(*url.URL) (int, bool)) {
+			if useRebalancer {
+				rr, err := roundrobin.New(handler)
+				if err != nil {
+					t.Fatal(err)
 				}
-				return neverReady{}, nil
-			}))
-			rb, err := roundrobin.NewRebalancer(rr, rbOpts...)
-			if err != nil {
-				t.Fatal(err)
+				opts := append([]roundrobin.RebalancerOption{}, rbOpts...)
+				opts = append(opts, roundrobin.RebalancerMeter(func() (roundrobin.Meter, error) {
+					if meterFails {
+						return nil, errors.New("meter constructor failed")
+					}
+					if adjusting {
+						return pendingMeter, nil
+					}
+					return neverReady{}, nil
+				}))
+				if adjusting {
+					opts = append(opts, roundrobin.RebalancerBackoff(time.Second))
+				}
+				rb, err := roundrobin.NewRebalancer(rr, opts...)
+				if err != nil {
+					t.Fatal(err)
+				}
+				return rb, rr.NextServer, rr.ServerWeight
 			}
-			p, nextServer, serverWeight = rb, rr.NextServer, rr.ServerWeight
-		} else {
 			rr, err := roundrobin.New(handler, rrOpts...)
 			if err != nil {
 				t.Fatal(err)
 			}
-			p, nextServer, serverWeight = rr, rr.NextServer, rr.ServerWeight
+			return rr, rr.NextServer, rr.ServerWeight
 		}
+		p, nextServer, serverWeight := build(mkHandler(&invoked, &seenKey))
+		// the twin receives the same history WITHOUT the removals of unknown servers: "fails and
+		// changes nothing" means both keep choosing the same servers
+		twin, twinNext, _ := build(mkHandler(&invoked2, &seenKey2))
 		m := &model{}
 		var log []string
 		ntRemovalAfterUpdate, ntDupSpelling, ntUnknownRemove, ntMutSticky := false, false, false, false
@@ -210,15 +244,22 @@ func TestC02_PoolMembership(t *testing.T) {
 			}
 			for _, e := range m.es {
 				u, _ := url.Parse(e.spell)
-				if w, ok := serverWeight(u); !ok || w != e.w {
-					t.Fatalf("%s: ServerWeight(%s) = %d,%v, model %d\nhistory: %s", where, e.spell, w, ok, e.w, strings.Join(log, "; "))
+				if w, ok := serverWeight(u); !ok || (!adjusting && w != e.w) || (adjusting && (w > 0) != (e.w > 0)) {
+					t.Fatalf("%s: ServerWeight(%s) = %d,%v, configured %d (weights being adjusted: %v)\nhistory: %s", where, e.spell, w, ok, e.w, adjusting, strings.Join(log, "; "))
 				}
 			}
 		}
 
 		request := func(viaHTTP bool, cookie string, mut int) {
+			if adjusting {
+				clock.Advance(time.Second + time.Millisecond)
+			}
 			if !viaHTTP {
 				u, err := nextServer()
+				u2, err2 := twinNext()
+				if (err == nil) != (err2 == nil) || (err == nil && key(u) != key(u2)) {
+					t.Fatalf("NextServer chose %v (%v); a twin pool that was spared the removals of unknown servers chose %v (%v): a failed removal changed something\nhistory: %s", u, err, u2, err2, strings.Join(log, "; "))
+				}
 				pos := m.positive()
 				if len(pos) == 0 {
 					if err == nil {
@@ -248,7 +289,12 @@ func TestC02_PoolMembership(t *testing.T) {
 			invoked, seenKey, mutate = 0, "", mut
 			rec := httptest.NewRecorder()
 			p.ServeHTTP(rec, req)
+			invoked2, seenKey2 = 0, ""
+			twin.ServeHTTP(httptest.NewRecorder(), req.Clone(req.Context()))
 			mutate = 0
+			if invoked != invoked2 || seenKey != seenKey2 {
+				t.Fatalf("request forwarded to %q (%d calls); a twin pool that was spared the removals of unknown servers forwarded it to %q (%d calls): a failed removal changed something\nhistory: %s", seenKey, invoked, seenKey2, invoked2, strings.Join(log, "; "))
+			}
 			if after := renderServers(p); after != before {
 				t.Fatalf("a downstream handler (mutation %d, cookie %q) changed the pool: %q -> %q\nhistory: %s", mut, cookie, before, after, strings.Join(log, "; "))
 			}
@@ -306,7 +352,13 @@ func TestC02_PoolMembership(t *testing.T) {
 				}
 				failAdd := useRebalancer && idx < 0 && !(has && w < 0) && rapid.IntRange(0, 5).Draw(t, "meterFails") == 0
 				meterFails = failAdd
+				if idx < 0 {
+					pendingMeter = &adjMeter{bad: rapid.IntRange(0, 2).Draw(t, "badServer") == 0}
+				}
 				err := p.UpsertServer(u, opts...)
+				if err2 := twin.UpsertServer(u, opts...); (err == nil) != (err2 == nil) {
+					t.Fatalf("upsert(%s): %v, on the twin: %v", u, err, err2)
+				}
 				meterFails = false
 				log = append(log, fmt.Sprintf("upsert(%s,%v/%v)=%v", u, w, has, err))
 				if failAdd {
@@ -335,7 +387,7 @@ func TestC02_PoolMembership(t *testing.T) {
 						if !has || w == 0 {
 							w = 1
 						}
-						m.es = append(m.es, entry{key: k, w: w, spell: u.String()})
+						m.es = append(m.es, entry{key: k, w: w, spell: u.String(), meter: pendingMeter})
 					}
 				}
 			case 3, 4: // remove
@@ -352,6 +404,9 @@ func TestC02_PoolMembership(t *testing.T) {
 					if m.es[idx].updates > 0 {
 						ntRemovalAfterUpdate = true
 					}
+					if err2 := twin.RemoveServer(u); err2 != nil {
+						t.Fatalf("twin remove(%s): %v", u, err2)
+					}
 					m.es = append(m.es[:idx], m.es[idx+1:]...)
 				} else {
 					ntUnknownRemove = true
@@ -363,6 +418,11 @@ func TestC02_PoolMembership(t *testing.T) {
 					}
 				}
 			case 5, 6, 7: // request
+				if adjusting && len(m.es) > 0 && rapid.IntRange(0, 3).Draw(t, "rate") == 0 {
+					e := m.es[rapid.IntRange(0, len(m.es)-1).Draw(t, "rated")]
+					e.meter.bad = !e.meter.bad
+					log = append(log, fmt.Sprintf("rate(%s,bad=%v)", e.spell, e.meter.bad))
+				}
 				viaHTTP := rapid.Bool().Draw(t, "viaHTTP")
 				cookie := ""
 				mut := 0
@@ -384,6 +444,9 @@ func TestC02_PoolMembership(t *testing.T) {
 					if err := p.UpsertServer(u, roundrobin.Weight(0)); err != nil {
 						t.Fatalf("upsert: %v", err)
 					}
+					if err := twin.UpsertServer(u, roundrobin.Weight(0)); err != nil {
+						t.Fatalf("twin upsert: %v", err)
+					}
 					m.es[j].w = 0
 					m.es[j].updates++
 				}
@@ -394,8 +457,13 @@ func TestC02_PoolMembership(t *testing.T) {
 			default: // rotation
 				sum, g := 0, 0
 				for _, e := range m.es {
-					sum += e.w
-					g = gcd(g, e.w)
+					w := e.w
+					if adjusting { // one rotation of the weights currently in force
+						u, _ := url.Parse(e.spell)
+						w, _ = serverWeight(u)
+					}
+					sum += w
+					g = gcd(g, w)
 				}
 				log = append(log, "rotation")
 				if sum == 0 {
@@ -407,6 +475,9 @@ func TestC02_PoolMembership(t *testing.T) {
 					u, err := nextServer()
 					if err != nil {
 						t.Fatalf("NextServer failed mid-rotation: %v", err)
+					}
+					if u2, err2 := twinNext(); err2 != nil || key(u2) != key(u) {
+						t.Fatalf("mid-rotation NextServer chose %v; a twin pool that was spared the removals of unknown servers chose %v (%v)\nhistory: %s", u, u2, err2, strings.Join(log, "; "))
 					}
 					seen[key(u)] = true
 				}
@@ -430,6 +501,9 @@ func TestC02_PoolMembership(t *testing.T) {
 		}
 		if sticky {
 			cl = append(cl, "sticky")
+		}
+		if adjusting {
+			cl = append(cl, "weights-being-adjusted")
 		}
 		if ntRemovalAfterUpdate {
 			cl = append(cl, "removal-after-update-of-same-key")
